@@ -1110,6 +1110,14 @@ func (g *pgen) mapNode(n *pnode, ctx pctx) {
 			break
 		}
 		o := opts[r.Intn(len(opts))]
+		if o == "both" && n.mode == "replace" && !e.k.scalar() {
+			// replace policy: the configured entry does not merge into the
+			// pre-filled entry of the same key, which is dropped with the old map
+			old := g.elem(n, mapKeys[perm[i]], mapKeys[perm[i]], false, true)
+			old.key = mapKeys[perm[i]]
+			n.kids = append(n.kids, old)
+			o = "cfg"
+		}
 		k := g.elem(n, mapKeys[perm[i]], mapKeys[perm[i]], o != "pre", o != "cfg")
 		k.key = mapKeys[perm[i]]
 		n.kids = append(n.kids, k)
@@ -1143,6 +1151,17 @@ func (g *pgen) mapNode(n *pnode, ctx pctx) {
 		}
 		n.inCfg = n.inCfg || k.inCfg
 		n.inPre = n.inPre || k.inPre
+	}
+	if n.mode == "replace" && nCfg > 0 {
+		// replace policy meeting a non-empty configured object: the result holds
+		// the configured entries alone (and what InitDefaults inserts); entries
+		// that are only pre-filled are dropped with the old map
+		for _, k := range n.kids {
+			if k.inPre && !k.inCfg {
+				k.dropped = true
+				k.seg, k.rseg = "~"+k.key, "~"+k.key
+			}
+		}
 	}
 	if g.isTarget(n) {
 		n.inCfg = true
@@ -1625,8 +1644,7 @@ func apply(n *pnode, dst reflect.Value) {
 			s = reflect.MakeSlice(n.t.rt, no+nc, no+nc)
 			reflect.Copy(s.Slice(nc, no+nc), dst)
 		case "replace":
-			s = reflect.MakeSlice(n.t.rt, nc, nc)
-			reflect.Copy(s, dst) // Unpack merges into copies of the old elements
+			s = reflect.MakeSlice(n.t.rt, nc, nc) // fresh elements, nothing of the old list survives
 		default:
 			l := nc
 			if no > l {
@@ -1647,6 +1665,15 @@ func apply(n *pnode, dst reflect.Value) {
 			apply(k, dst.Index(i))
 		}
 	case n.t.k == kMap:
+		if n.mode == "replace" && !dst.IsNil() && dst.Len() > 0 {
+			// replace policy: a non-empty configured object exchanges the old map
+			for _, k := range n.kids {
+				if k.inCfg {
+					dst.Set(reflect.MakeMap(n.t.rt))
+					break
+				}
+			}
+		}
 		if _, iv := mapInit(n.t.lib); iv != nil {
 			// InitDefaults of the map type runs whenever the map is unpacked
 			if dst.IsNil() {
@@ -1732,6 +1759,9 @@ func collState(n *pnode) string {
 		p = "pre-empty"
 	}
 	m := "map"
+	if n.mode == "replace" {
+		m = "map:replace"
+	}
 	if n.t.k == kSlice {
 		m = "slice:" + sliceMode(n.mode)
 	}
